@@ -339,9 +339,11 @@ func (_this *cteListener) ExitValueFloat(ctx *parser.ValueFloatContext) {
 		}
 	}
 
-	if value, err := compact_float.DFloatFromString(str); err == nil {
-		_this.eventReceiver.OnDecimalFloat(value)
-		return
+	if decimalCoefficientFitsDFloat(strNoSign) {
+		if value, err := compact_float.DFloatFromString(str); err == nil {
+			_this.eventReceiver.OnDecimalFloat(value)
+			return
+		}
 	}
 
 	decimal, cond, err := apd.NewFromString(strNoSign)
@@ -355,6 +357,21 @@ func (_this *cteListener) ExitValueFloat(ctx *parser.ValueFloatContext) {
 		decimal = decimal.Neg(decimal)
 	}
 	_this.eventReceiver.OnBigDecimalFloat(decimal)
+}
+
+// DFloatFromString rounds a coefficient that does not fit its 63 bits.
+// 18 significant digits always fit; anything longer is left to apd.
+func decimalCoefficientFitsDFloat(strNoSign string) bool {
+	digitCount := 0
+	for _, ch := range strNoSign {
+		if ch == 'e' || ch == 'E' {
+			break
+		}
+		if ch >= '0' && ch <= '9' && (digitCount > 0 || ch != '0') {
+			digitCount++
+		}
+	}
+	return digitCount <= 18
 }
 
 func (_this *cteListener) ExitValueInf(ctx *parser.ValueInfContext) {
